@@ -25,6 +25,18 @@ Theorem C11_real_path_contained : forall root rs cwd p,
   inside root (real_path root cwd p) /\ rooted_clean (real_path root cwd p).
 Proof. exact real_path_inside. Qed.
 
+(* ALL strings, in particular those that begin with the host-side spelling of the root
+   (absolute "<root>/../../x", or any other suffix): such an argument gets no special
+   treatment - it is cleaned as an absolute path and placed beneath the root - and the result
+   is inside the root.  (The relative spelling is covered by C11_real_path_contained, which
+   quantifies over every argument string.) *)
+Theorem C11_real_path_host_spelling : forall root rs cwd suffix,
+  clean_root root rs -> rooted_clean cwd ->
+  real_path root cwd (root ++ suffix) = join2 root (clean (root ++ suffix)) /\
+  inside root (real_path root cwd (root ++ suffix)) /\
+  rooted_clean (real_path root cwd (root ++ suffix)).
+Proof. exact real_path_host_spelling. Qed.
+
 (* everything beneath a contained path is contained (directory listings, renamed subtrees) *)
 Theorem C11_inside_descends : forall root a k,
   inside root a -> is_prefix (a ++ [SLASH]) k = true -> inside root k.
@@ -127,6 +139,14 @@ Example C11_dotdot_is_absorbed :
   real_path ex_root [47;97] [46;46;47;47;46;47] = ex_root.
 Proof. vm_compute. auto. Qed.
 
+(* "/srv/ftp/../../b", "srv/ftp/../../b" from /a, and "..\..\b" (one component): all beneath the root *)
+Example C11_host_spelling_is_absorbed :
+  real_path ex_root [47;97] (ex_root ++ [47;46;46;47;46;46;47;98]) = ex_root ++ [47;98] /\
+  real_path ex_root [47;97] (tl ex_root ++ [47;46;46;47;46;46;47;98]) = ex_root ++ [47;97;47;98] /\
+  real_path ex_root [47] (ex_root ++ [47;98]) = ex_root ++ ex_root ++ [47;98] /\
+  real_path ex_root [47] [46;46;92;46;46;92;98] = ex_root ++ [47;46;46;92;46;46;92;98].
+Proof. vm_compute. auto. Qed.
+
 (* a session that tries to delete and overwrite /srv/b: it ends up creating /srv/ftp/b *)
 Example C11_session_example :
   let '(s', rsps, fatal) := run (init_sess ex_fs ex_root)
@@ -150,6 +170,7 @@ Proof. vm_compute. repeat split. Qed.
 Print Assumptions C11_clean_rooted_no_dotdot.
 Print Assumptions C11_real_path_shape.
 Print Assumptions C11_real_path_contained.
+Print Assumptions C11_real_path_host_spelling.
 Print Assumptions C11_inside_descends.
 Print Assumptions C11_change_dir_stays_inside.
 Print Assumptions C11_cwd_invariant_all_histories.
